@@ -60,3 +60,25 @@ def history (calls : List (Bool × List (Nat × Nat))) : St :=
   calls.foldl (fun st c => call st c.1 c.2) {}
 
 end ElfiVerif.Smc
+
+/-! ### the numbers: importance weights against the Gaussian-mixture proposal
+
+`_compute_weights_means_and_cov`: `w_i = prior.pdf(θ_i) / GMDistribution.pdf(θ_i, means, cov, weights)` where
+the mixture NORMALISES the weights of the previous population.  The component density (`kernel x m`, a
+normal density centred at a particle of the previous population) is a parameter. -/
+namespace ElfiVerif.Smc
+section weights
+variable {F Θ : Type} [Add F] [Mul F] [Div F] [OfNat F 0]
+
+def sumF (l : List F) : F := l.foldr (· + ·) 0
+
+/-- mixture density at `x`: `Σ_j (w_j / Σw) · kernel x m_j` -/
+def gmDensity (kernel : Θ → Θ → F) (means : List Θ) (w : List F) (x : Θ) : F :=
+  sumF (List.zipWith (fun wj m => wj / sumF w * kernel x m) w means)
+
+/-- importance weight of an accepted particle `x` of the new population -/
+def smcWeight (prior : Θ → F) (kernel : Θ → Θ → F) (means : List Θ) (w : List F) (x : Θ) : F :=
+  prior x / gmDensity kernel means w x
+
+end weights
+end ElfiVerif.Smc
